@@ -16,7 +16,7 @@ def make_work(rng, tier):
         for q in qs:
             cfgs = [{"partitions": 1, "batch_size": 2048, "enable_hash_joins": True}]
             for _ in range(4):
-                cfgs.append({"partitions": rng.choice([1, 2, 3, 5, 16, 64, 64, 512]),
+                cfgs.append({"partitions": rng.choice([1, 2, 3, 5, 8, 16, 64] if tier == "quick" else [1, 2, 3, 5, 16, 64, 64, 512]),
                              "batch_size": rng.choice([1, 2, 3, 7, 8, 64, 2048, 8192]),
                              "enable_hash_joins": bool(rng.below(2))})
             for c in cfgs:
